@@ -67,6 +67,24 @@ JSValue = Union[
 ]
 
 
+MAX_SAFE_INTEGER = 2**53
+
+
+def normalize_number(n: Union[int, float]) -> Union[int, float]:
+    """Keep host integers only where they are exact doubles.
+
+    Python ints are used as an optimisation for small integers, but every
+    JavaScript number is an IEEE double: an integer beyond 2^53 must round
+    to the nearest double (or to Infinity) instead of staying exact.
+    """
+    if type(n) is int and not -MAX_SAFE_INTEGER <= n <= MAX_SAFE_INTEGER:
+        try:
+            return float(n)
+        except OverflowError:
+            return float("inf") if n > 0 else float("-inf")
+    return n
+
+
 def is_nan(value: Any) -> bool:
     """Check if value is NaN."""
     return isinstance(value, float) and math.isnan(value)
@@ -159,9 +177,9 @@ def to_number(value: JSValue) -> Union[int, float]:
     if isinstance(value, bool):
         return 1 if value else 0
     if isinstance(value, (int, float)):
-        return value
+        return normalize_number(value)
     if isinstance(value, str):
-        return _string_to_number(value)
+        return normalize_number(_string_to_number(value))
     # TODO: Handle objects with valueOf
     return float("nan")
 
